@@ -127,7 +127,9 @@ def check_residue(tag, cg, tmpl, atoms, factor):
             nz = dT[iu] > 1e-9
             if nz.any():
                 r = dQ[iu][nz] / dT[iu][nz]
-                if r.max() - r.min() <= 1e-6:
+                if r.max() <= 1e-9:
+                    key, why = "c06-atoms-collapsed", "all atoms of the residue were put on one point"
+                elif r.max() - r.min() <= 1e-6:
                     key, why = "c06-wrong-scale", f"the copy is the template scaled by {factor * r.mean():.6g}, the backmapping factor is {factor}"
             if key == "c06-not-congruent" and n <= 5:
                 for perm in itertools.permutations(range(n)):
@@ -745,7 +747,7 @@ def _eval_gc(w, d):
 
 
 def gc_worlds(ctx):
-    seeds = [ctx.seed * 1000 + i for i in range(1 if not ctx.thorough else 4)]
+    seeds = [ctx.seed * 1000 + i * 17 for i in range(2 if not ctx.thorough else 6)]
     systems = []
     for k in G_KINDS:
         systems += [[[f"S.{k}", 1]],
@@ -867,7 +869,7 @@ def run_c06(ctx, res):
         f"(b) PROGRAM worlds, gen_coords on generated files, templates by the real GenerateTemplates: residue kinds {{{', '.join(f'{k}:{len(v['atoms'])}' for k, v in GK.items())}}} "
         "(gv3/gv/fv with a virtual_sitesn site; f3/fv/f4 with bond lengths violating the triangle inequality = optimisation fails, unoptimised coordinates are used) as "
         "{single residue; single + chain of 3; chain of 3 + 2 singles; star centre first; single + star centre last + chain of 2} + mixed chains MX, MXF "
-        f"= {n_sys} systems x factors {list(FACTORS)} x {1 if not ctx.thorough else 4} seed(s) = {n_plain} worlds; + {n_co} worlds with supplied coordinates (-c first 1 / 2 residues, which are not backmapped; "
+        f"= {n_sys} systems x factors {list(FACTORS)} x {2 if not ctx.thorough else 6} seeds = {n_plain} worlds; + {n_co} worlds with supplied coordinates (-c first 1 / 2 residues, which are not backmapped; "
         f"-mc all centres) + {n_sf} worlds with -skip_filter: {tg['worlds']} worlds finished, {tg['residues']} backmapped residues ({tg['shared']} multi-atom with >= 2 copies, "
         f"{tg['chiral']} chiral), {tg['untouched']} supplied residues; {failed_worlds} worlds used a template whose optimisation failed ({failed_vs_worlds} with a virtual site); "
         f"largest number of copies of one type in a world: {max_copies}.  Placement and starting angles are seeded, not exhaustive.  "
